@@ -405,6 +405,14 @@ void FileManager::readProperty(std::istream& _iff, MeshT& _mesh) const {
     name = line;
     extractQuotedText(name);
 
+    if(name.empty()) {
+        // A persistent property needs a name: ignore the declaration
+        if (verbosity_level_ >= 1) {
+            std::cerr << "OVM file loading: ignoring property without a name!" << std::endl;
+        }
+        return;
+    }
+
     if (verbosity_level_ >= 2) {
         std::cerr << "OVM read property " << name << " of type " << prop_t << std::endl;
     }
